@@ -255,10 +255,21 @@ func c11History(c *mon.Ctx, r *mon.Rand) {
 	for i := 1; i < nsc; i++ {
 		progs = append(progs, pool.prog(r, 3))
 	}
+	// half of the histories: the caller owns one map object and refills it for
+	// every Tagged call
+	var reuseMap map[string]string
+	if r.Bool() {
+		reuseMap = map[string]string{}
+	}
 	var scopes []*c11Scope
 	for _, p := range progs {
 		ids, _ := rc.trace(p)
-		scs := p.clone().apply(ts)
+		var scs []tally.Scope
+		if reuseMap != nil {
+			scs = p.clone().applyReusing(ts, reuseMap)
+		} else {
+			scs = p.clone().apply(ts)
+		}
 		scopes = append(scopes, &c11Scope{id: ids[len(ids)-1], sc: scs[len(scs)-1], prog: p, ids: ids})
 	}
 	ref := map[string]*c11Metric{}
